@@ -23,6 +23,7 @@ type c01Case struct {
 	Src     []byte            `json:"src"`
 	Aliases map[string]string `json:"aliases,omitempty"`
 	AllKind bool              `json:"all_kinds,omitempty"` // deliver through all four source kinds
+	Flaky   bool              `json:"flaky,omitempty"`     // deliver through readers with one transient failure, at every position
 	Kind    string            `json:"kind"`
 }
 
@@ -79,6 +80,49 @@ func (r *oneByteReader) Read(p []byte) (int, error) {
 	return 1, nil
 }
 
+// flakyReader / flakyScanner fail exactly once, with a non-EOF error, when the
+// read position reaches k, and then go on delivering the data (a timed-out
+// network read; bufio turns every flaky io.Reader into this shape).
+type flakyReader struct {
+	b     []byte
+	i, k  int
+	fired bool
+}
+
+var errFlaky = fmt.Errorf("transient read failure")
+
+func (r *flakyReader) Read(p []byte) (int, error) {
+	if r.i == r.k && !r.fired {
+		r.fired = true
+		return 0, errFlaky
+	}
+	if r.i >= len(r.b) {
+		return 0, io.EOF
+	}
+	if len(p) == 0 {
+		return 0, nil
+	}
+	p[0] = r.b[r.i]
+	r.i++
+	return 1, nil
+}
+
+type flakyScanner struct {
+	r     *bytes.Reader
+	i, k  int
+	fired bool
+}
+
+func (s *flakyScanner) ReadRune() (rune, int, error) {
+	if s.i == s.k && !s.fired {
+		s.fired = true
+		return 0, 0, errFlaky
+	}
+	s.i++
+	return s.r.ReadRune()
+}
+func (s *flakyScanner) UnreadRune() error { s.i--; return s.r.UnreadRune() }
+
 // countingScanner is a custom io.RuneScanner that counts calls.
 type countingScanner struct {
 	r       *bytes.Reader
@@ -107,15 +151,37 @@ func c01Exec(c *core.Ctx, cs c01Case) {
 			env.Aliases[k] = v
 		}
 	}
-	kinds := []int{int(c.Index() % 4)}
+	kinds := []int{int(c.Index() % 6)}
 	if cs.AllKind {
 		kinds = []int{0, 1, 2, 3}
 	}
 	n := utf8.RuneCount(cs.Src)
+	if cs.Flaky {
+		// a transient read failure at every position, through both reader kinds
+		kinds = nil
+		for k := 0; k <= len(cs.Src); k++ {
+			kinds = append(kinds, 4+2*k)
+			if k <= n {
+				kinds = append(kinds, 5+2*k)
+			}
+		}
+	}
 	for _, k := range kinds {
 		var src any
 		var cnt *countingScanner
+		fk := 0
+		if k >= 4 {
+			fk = (k - 4) / 2
+			k = 4 + (k-4)%2
+			if !cs.Flaky {
+				fk = int(c.Index()/6) % (len(cs.Src) + 1)
+			}
+		}
 		switch k {
+		case 4:
+			src = &flakyReader{b: append([]byte(nil), cs.Src...), k: fk}
+		case 5:
+			src = &flakyScanner{r: bytes.NewReader(cs.Src), k: fk}
 		case 0:
 			src = string(cs.Src)
 		case 1:
@@ -234,6 +300,19 @@ func c01Gen(c *core.Ctx) {
 			}
 		}
 	}
+	// 1b. transient read failures: every string of <=5 tokens of a small alphabet around
+	// command substitutions and operator look-aheads, failure at every position
+	flakyAlpha := []string{"$(", "a", "&", ";", "|", "(", "\n"}
+	if !core.Quick(c) {
+		flakyAlpha = append(flakyAlpha, "`", "<", ")")
+	}
+	enumStrings(flakyAlpha, 1, 5, func(_ string, idx []int) {
+		parts := make([]string, len(idx))
+		for i, k := range idx {
+			parts[i] = flakyAlpha[k]
+		}
+		core.Do(c, c01Case{Src: []byte(strings.Join(parts, " ")), Flaky: true, Kind: "flaky-token-string"}, c01Exec)
+	})
 	// 2. exhaustive character strings
 	enumStrings(c01Chars, 0, c.Pick(4, 5), func(s string, _ []int) {
 		core.Do(c, c01Case{Src: []byte(s), Kind: "char-string"}, c01Exec)
@@ -308,14 +387,14 @@ func init() {
 		ID:          "C01",
 		Level:       "exploration",
 		Technique:   "runtime monitoring: crash / hang / work-bound monitor over isolated worker processes (journalled cases, solo re-run attribution, goroutine accounting through the verif hooks), every case list executed under GODEBUG=panicnil=0 and panicnil=1",
-		Rule:        "a case is (source bytes, alias table) delivered as string, []byte, io.Reader (1 byte per Read) and a custom io.RuneScanner (all four for short sources, rotated otherwise); workloads: every string of <=3 tokens of a 52-token alphabet joined by a blank and by nothing (thorough: plus 1/8 of all 4-token strings), every string of <=4 (thorough <=5) characters over 21 significant characters, every byte prefix of 2000 (thorough 50000) generated programs, 20 (thorough 200) byte mutations of each (deletions, duplications, swaps, inserted fragments incl. invalid UTF-8 and NUL), 4 random alias tables per program (names = words of the program; values with operators, reserved words, newlines, trailing blanks, self reference, chains), alias tables over all 2-token strings, and all 216 cyclic alias tables over 3 names. distinct_nontrivial = distinct syntax-error messages observed (a proxy for distinct lexer/parser paths).",
+		Rule:        "a case is (source bytes, alias table) delivered as string, []byte, io.Reader (1 byte per Read), a custom io.RuneScanner, and an io.Reader / io.RuneScanner that fails once with a non-EOF error at some position and then goes on (all four plain kinds for short sources, the six rotated otherwise); workloads: every string of <=5 tokens over a 7-token (thorough 10-token) alphabet around command substitutions and operator look-aheads with the transient failure at every position, every string of <=3 tokens of a 52-token alphabet joined by a blank and by nothing (thorough: plus 1/8 of all 4-token strings), every string of <=4 (thorough <=5) characters over 21 significant characters, every byte prefix of 2000 (thorough 50000) generated programs, 20 (thorough 200) byte mutations of each (deletions, duplications, swaps, inserted fragments incl. invalid UTF-8 and NUL), 4 random alias tables per program (names = words of the program; values with operators, reserved words, newlines, trailing blanks, self reference, chains), alias tables over all 2-token strings, and all 216 cyclic alias tables over 3 names. distinct_nontrivial = distinct syntax-error messages observed (a proxy for distinct lexer/parser paths).",
 		Assumptions: []string{"'bounded time' is observed as: the call returns before a 10 s per-case watchdog (cases take microseconds), ReadRune calls <= 4*len+64, alias substitutions <= 64*(len+|table|+1)"},
 		GoDebug:     []string{"panicnil=0", "panicnil=1"},
 		Gen:         c01Gen,
 		Replay:      func(c *core.Ctx, raw []byte) { core.ReplayOne(c, raw, c01Exec) },
 		Exhaustive:  func(string) bool { return true },
 		Finish: func(m *core.Merged) string {
-			for _, k := range []string{"source-kind/0", "source-kind/1", "source-kind/2", "source-kind/3", "result/error", "result/commands", "alias-substitutions"} {
+			for _, k := range []string{"source-kind/0", "source-kind/1", "source-kind/2", "source-kind/3", "source-kind/4", "source-kind/5", "result/error", "result/commands", "alias-substitutions"} {
 				if m.Counters[k] < 1000 {
 					return "too few observations of " + k
 				}
